@@ -5,7 +5,7 @@
 (* and the signer transcription; every later reconstruction is the         *)
 (* validator transcription, equal to the signed octets after legitimate    *)
 (* transforms and different after an alteration.                           *)
-EXTENDS Rrsig, TLC, Json, IOUtils
+EXTENDS SignerInput, Json, IOUtils
 
 Rec == ndJsonDeserialize(IOEnv.TRACE)
 
@@ -57,6 +57,9 @@ T_KeySign ==
          sib == SiblingAlg(e.key.alg)
      IN /\ e.key = e.made_from
         /\ e.key.alg \in SignAlgs /\ KeyWellFormed(e.key)
+        \* a key the signer signs with is a key the validator takes (RSA: up
+        \* to RFC 3110's 4096 bits)
+        /\ SignerAccepts(e.key) /\ ValidatorAccepts(e.key)
         /\ e.algs.pair = e.key.alg /\ e.algs.secret = e.key.alg /\ e.algs.sig = e.key.alg
         /\ NoDuplicates(e.rrs)
         /\ f = e.res.sig
@@ -68,7 +71,26 @@ T_KeySign ==
         /\ e.res.verify_sibling = Verify(s, [e.key EXCEPT !.alg = sib], SignedData([f EXCEPT !.alg = sib], e.rrs))
   /\ UNCHANGED signed
 
-TNext == T_Sign \/ T_Validate \/ T_KeySign
+\* a zone reached a SortedRecords collection by some route and was signed
+\* through one of the entry points: the collection handed its records out in
+\* canonical order without duplicates (the precondition of the entry points
+\* that trust the order), sign_raw received exactly one buffer per RRset of
+\* the zone - SignedData of that RRset -, and every RRSIG a real key made the
+\* same way verified over its RRset presented in any order
+T_SignZone ==
+  /\ IsEv("signzone")
+  /\ LET e == Rec[l]
+         x == [key |-> e.key, keyOwner |-> e.keyOwner, inc |-> e.inc, exp |-> e.exp]
+         g == RrRuns(e.stored)
+     IN /\ SR!IsCanonical(OfRrs(e.stored))
+        /\ Len(e.res.handed) = Len(g)
+        /\ \A i \in 1..Len(g) :
+              /\ CanonicalRrset(g[i])
+              /\ e.res.handed[i] = SignedData(Fields(x, g[i]), g[i])
+        /\ e.res.verify
+  /\ UNCHANGED signed
+
+TNext == T_Sign \/ T_Validate \/ T_KeySign \/ T_SignZone
 TSpec == TInit /\ [][TNext]_tvars
 
 Accepted ==
